@@ -167,8 +167,6 @@ def main():
         "not_applicable": na,
         "notes": "Exit codes: 0 all obligations discharged (KNOWN-FINDING lines for listed findings), 1 VIOLATION, 2 ANALYSIS-ERROR (anchor missing / unreadable shape / self-test failure; never a silent pass). known_findings.json lists known and fixed findings.",
     }
-    if not na:
-        m.pop("not_applicable")
     json.dump(m, open(os.path.join(HERE, "MANIFEST.json"), "w"), indent=1)
     print(f"{len(checks)} checks, {len(na)} not applicable")
 
